@@ -700,6 +700,15 @@ class Exec:
                         if len(c) > 1 and mm.group(1):      # same type name in several modules: use the full path
                             c = [g for g in c if (mm.group(1) + mm.group(2)) in g.types.get(1, '') or g.name.startswith(mm.group(1))]
                         if len(c) == 1: f = c[0]
+                if f is None:
+                    # `a::b::Type::method` where several modules define a `Type` (e.g. accept::openssl::Acceptor / accept::rustls_0_23::Acceptor):
+                    # the inherent impl that lives in the file of that module
+                    mm = re.match(r'^((?:\w+::)+)(\w+)::(\w+)$', self.strip_generics(callee_txt))
+                    if mm:
+                        modpath = mm.group(1).rstrip(':').replace('::', '/')
+                        c = [g for n, g in self.fns.items() if n.endswith('::' + mm.group(3)) and g.impl_loc and (modpath + '.rs') in str(g.impl_loc[0])
+                             and re.match(r'\s*impl(<.*?>)? %s\b' % mm.group(2), self.impl_line(g.impl_loc))]
+                        if len(c) == 1: f = c[0]
                 if f is None: raise Unknown('unmodelled callee ' + callee_txt)
                 hit = ('f', f)
             cache[callee_txt] = hit
